@@ -103,8 +103,8 @@ def _partition_of_edges(adj, ii, jj):
 
 
 def check(case, ctx):
-    x = np.array(case["x"], dtype=float)
-    y = np.array(case["y"], dtype=float)
+    x = gen.layout(np.array(case["x"], dtype=float), case.get("order"))
+    y = gen.layout(np.array(case["y"], dtype=float), case.get("order"))
     thresh, tail, paired, k, seed = case["thresh"], case["tail"], case["paired"], case["k"], case["seed"]
     n = x.shape[0]
     nx, ny = x.shape[2], y.shape[2]
@@ -124,7 +124,8 @@ def check(case, ctx):
     supra = t > thresh
 
     rec = Recorder(seed)
-    o = ctx.call(bct.nbs_bct, x.copy(), y.copy(), thresh, k=k, tail=tail, paired=paired, seed=rec, timeout=30)
+    o = ctx.call(bct.nbs_bct, gen.layout(x.copy(), case.get("order")), gen.layout(y.copy(), case.get("order")), thresh, k=k, tail=tail,
+                 paired=paired, seed=rec, timeout=30)
     if o.status == "timeout":
         return fails
     if o.status == "reject":
@@ -303,9 +304,11 @@ def cases(draw, rich=False):
     if rich:
         # many relabellings with several mid-sized components: mid threshold, many permutations
         return {"x": x, "y": y, "thresh": draw(st.sampled_from([1.0, 1.5, 2.0])), "tail": draw(st.sampled_from(["both", "both", "left", "right"])),
-                "paired": paired, "k": draw(st.integers(15, 30)), "seed": draw(gen.seeds()), "perm_x": perm_x, "perm_y": perm_y}
+                "paired": paired, "k": draw(st.integers(15, 30)), "seed": draw(gen.seeds()), "perm_x": perm_x, "perm_y": perm_y,
+                "order": draw(st.sampled_from(gen.ORDERS))}
     return {"x": x, "y": y, "thresh": draw(st.sampled_from([1.0, 0.5, 2.0, 3.0])), "tail": draw(st.sampled_from(["left", "both", "right"])),
-            "paired": paired, "k": draw(st.integers(2, 20)), "seed": draw(gen.seeds()), "perm_x": perm_x, "perm_y": perm_y}
+            "paired": paired, "k": draw(st.integers(2, 20)), "seed": draw(gen.seeds()), "perm_x": perm_x, "perm_y": perm_y,
+            "order": draw(st.sampled_from(gen.ORDERS))}
 
 
 def units(tier):
